@@ -20,6 +20,18 @@ CLAIMED = {
         "dynamic symbolic execution of the real Python code (own engine vx) + z3 LRA, path-witness replay",
         "DESIGN.md section 4 C02",
     ),
+    "C20": (
+        "model_checking",
+        "fit_into_array / _set_relative_position / load_cropped_and_aligned_image executed symbolically: offsets are "
+        "unbounded z3 integers, pixels reals, shapes 1..3 (quick) / 1..4 (thorough) squared for input and detector; "
+        "np.intersect1d forks on membership so the finitely many overlap configurations are enumerated by the solver "
+        "while the no-overlap half-lines stay symbolic; per path z3 decides pixelwise placement, rejection iff no "
+        "overlap, alignment geometry; freshness: history write A, load, rewrite B, load through the real cache.",
+        "Format readers (np.load, FITS, text, csv sniffing) are outside: the first sentence of C20 is not decided. "
+        "pyxel.inputs.load_image is a stub reading a symbolic file store in the freshness harness.",
+        "dynamic symbolic execution of the real Python code (vx) + z3 LIA/LRA, path-witness replay",
+        "DESIGN.md section 4 C20",
+    ),
 }
 
 NOT_APPLICABLE = {
